@@ -359,7 +359,27 @@ func (fr *frame) applyContract(x ssa.Instruction, sig *types.Signature, fc *Func
 				vc.declareFun(fn, ss, rs)
 			}
 			var t *Term
-			if len(as) == 0 {
+			valued := false
+			if d := fc.Opts["defines"]; d != "" {
+				if dsig, err := fr.w.specSig(d); err == nil && dsig.sf.Valued {
+					valued = true
+				}
+			}
+			if valued {
+				was := make([]*Term, len(as))
+				for i, a := range as {
+					if a.Sort == SStr {
+						was[i] = App("sv", "SV", a)
+					} else {
+						was[i] = a
+					}
+				}
+				if rs == SStr {
+					t = App("strof", SStr, App(fn, "SV", was...))
+				} else {
+					t = App(fn, rs, was...)
+				}
+			} else if len(as) == 0 {
 				t = Sym(fn, rs)
 			} else {
 				t = App(fn, rs, as...)
